@@ -74,7 +74,7 @@ theorem getElem?_carve {α : Type} (off : Nat) (ns : List Nat) (pid : Nat) (h : 
       simp only [carve, List.getElem?_cons_succ]
       rw [ih (off + n) pid h', startOf_cons_succ, Nat.add_assoc]
 
-theorem length_mkBacking {α : Type} (stale : List α) (tot : Nat) : tot ≤ (mkBacking stale tot).length := by
+theorem length_mkBacking {α : Type} (stale : List α) (tot : Nat) : tot ≤ (mkBacking stale tot).size := by
   unfold mkBacking
   split
   · simpa using ‹tot ≤ stale.length›
@@ -86,7 +86,7 @@ theorem length_mkBacking {α : Type} (stale : List α) (tot : Nat) : tot ≤ (mk
 structure Exact {α : Type} (A : Arena α) (ns : List Nat) (content : Nat → List α) : Prop where
   notBad : A.bad = false
   len : A.sl.length = ns.length
-  total : ns.sum ≤ A.back.length
+  total : ns.sum ≤ A.back.size
   /-- appended so far ≤ counted -/
   room : ∀ pid, pid < ns.length → (content pid).length ≤ ns.getD pid 0
   /-- the slice header: still a window of the shared array, at the carved offset -/
@@ -119,12 +119,12 @@ theorem exact_push {α : Type} [Inhabited α] (A : Arena α) (ns : List Nat) (co
     (hroom : (content pid).length < ns.getD pid 0)
     (h1 : content' pid = content pid ++ [x]) (h2 : ∀ q, q ≠ pid → content' q = content q) :
     Exact (A.push pid x) ns content' := by
-  have hidx : startOf ns pid + (content pid).length < A.back.length := by
+  have hidx : startOf ns pid + (content pid).length < A.back.size := by
     have := startOf_add_le_sum ns pid
     have := hA.total
     omega
   have hpush : A.push pid x =
-      { A with back := A.back.set (startOf ns pid + (content pid).length) (some x),
+      { A with back := A.back.setIfInBounds (startOf ns pid + (content pid).length) (some x),
                sl := A.sl.set pid (.view (startOf ns pid) ((content pid).length + 1)) } := by
     unfold Arena.push
     rw [hA.hdr pid hpid]
@@ -144,13 +144,13 @@ theorem exact_push {α : Type} [Inhabited α] (A : Arena α) (ns : List Nat) (co
     · rw [List.getElem?_set_ne (fun h => e h.symm), h2 q e]
       exact hA.hdr q hq
   · intro q hq i y hy
-    show (A.back.set _ _)[startOf ns q + i]? = _
+    show (A.back.setIfInBounds _ _)[startOf ns q + i]? = _
     by_cases e : q = pid
     · subst e
       rw [h1] at hy
       by_cases hi : i < (content q).length
       · rw [List.getElem?_append_left hi] at hy
-        rw [List.getElem?_set_ne (by omega)]
+        rw [Array.getElem?_setIfInBounds_ne (by omega)]
         exact hA.cells q hq i y hy
       · have hlen : i < (content q ++ [x]).length := by
           apply Classical.byContradiction
@@ -159,7 +159,7 @@ theorem exact_push {α : Type} [Inhabited α] (A : Arena α) (ns : List Nat) (co
           exact absurd hy (by simp)
         have hi' : i = (content q).length := by simp at hlen; omega
         subst hi'
-        rw [List.getElem?_set_self hidx]
+        rw [Array.getElem?_setIfInBounds_self, if_pos hidx]
         simp at hy
         rw [hy]
     · rw [h2 q e] at hy
@@ -170,7 +170,7 @@ theorem exact_push {α : Type} [Inhabited α] (A : Arena α) (ns : List Nat) (co
         exact absurd hy (by simp)
       have hr := hA.room q hq
       have := windows_disjoint ns (i := (content pid).length) (j := i) (fun h => e h.symm) hroom (by omega)
-      rw [List.getElem?_set_ne this]
+      rw [Array.getElem?_setIfInBounds_ne this]
       exact hA.cells q hq i y hy
 
 theorem exact_pushAll {α : Type} [Inhabited α] (xs : List α) (A : Arena α) (ns : List Nat)
@@ -201,15 +201,20 @@ theorem exact_read {α : Type} [Inhabited α] (A : Arena α) (ns : List Nat) (co
   rw [hA.hdr pid hpid]
   show readCells A.back (startOf ns pid) (content pid).length = content pid
   unfold readCells
+  have hfit : startOf ns pid + (content pid).length ≤ A.back.size := by
+    have := startOf_add_le_sum ns pid
+    have := hA.total
+    have := hA.room pid hpid
+    omega
   apply List.ext_getElem?
   intro i
-  rw [List.getElem?_map, List.getElem?_take]
+  rw [List.getElem?_map, Array.getElem?_toList, Array.getElem?_extract]
   by_cases hi : i < (content pid).length
-  · rw [if_pos hi, List.getElem?_drop]
+  · rw [if_pos (by omega)]
     have hx : (content pid)[i]? = some ((content pid)[i]) := List.getElem?_eq_getElem hi
     rw [hA.cells pid hpid i _ hx, hx]
     rfl
-  · rw [if_neg hi, List.getElem?_eq_none (by omega)]
+  · rw [if_neg (by omega), List.getElem?_eq_none (by omega)]
     rfl
 
 /-! ### splitting the location stream by `numLocs` -/
